@@ -401,8 +401,14 @@ func (an *Analysis) IsStripFields(in ssa.Instruction) bool {
 			}
 		}
 		if c2 := callOf(i2); c2 != nil {
-			if b, ok := c2.Value.(*ssa.Builtin); ok && b.Name() == "delete" && len(c2.Args) > 0 && isHTTPHeader(c2.Args[0].Type()) {
-				dels = true
+			if b, ok := c2.Value.(*ssa.Builtin); ok && b.Name() == "delete" && len(c2.Args) == 2 && isHTTPHeader(c2.Args[0].Type()) {
+				// deletion by map key matches only the canonical spelling: the name taken from the directive's argument
+				// must be canonicalised first (Header.Del does that itself)
+				if an.dependsOnCall(c2.Args[1], func(cc *ssa.Call) bool {
+					return callIsPkgFunc(&cc.Call, "net/http", "CanonicalHeaderKey") || callIsPkgFunc(&cc.Call, "net/textproto", "CanonicalMIMEHeaderKey")
+				}) {
+					dels = true
+				}
 			}
 		}
 	})
@@ -511,4 +517,49 @@ func ruleC02_5(c *Ctx) {
 		return
 	}
 	c.Pass("C02.5", "handler-304-only", desc, fmt.Sprintf("%s: %d serve returns, all dead under %s", c.P.ShortName(vh), total, assumeString(assume)))
+}
+
+// ruleValidatorGuards (C02.3 / C20.6): the conditional-request builder copies a stored validator whenever one is stored:
+// the only decisions in front of `Set("If-None-Match", …)` / `Set("If-Modified-Since", …)` are presence tests of header
+// fields (and nil tests). A further test on the validator's value (strong tags only, …) leaves some stored validators
+// unused, and the validation goes out unconditional.
+func ruleValidatorGuards(c *Ctx, rule string) {
+	if !c.Need(rule, "cond") {
+		return
+	}
+	fn := c.A.F("cond")
+	desc := "a stored validator is used whenever it is present (no further condition on its value)"
+	n := 0
+	for _, g := range c.reachableFrom(fn) {
+		instrsOf(g, func(in ssa.Instruction) {
+			cc := callOf(in)
+			if cc == nil || !callIsMethod(cc, "net/http", "Header", "Set") {
+				return
+			}
+			_, args := recvAndArgs(cc)
+			k, ok := constStr(args[0])
+			if !ok || (k != "If-None-Match" && k != "If-Modified-Since") {
+				return
+			}
+			n++
+			other := ""
+			for _, dc := range dominatingConds(in.Block()) {
+				for _, lf := range condLeaves(dc.cond, dc.onTrue) {
+					if a, _, ok := c.An.AtomOf(lf.v); ok && (strings.HasPrefix(a.Key, "hdr.") && strings.HasSuffix(a.Key, ".present") || strings.HasPrefix(a.Key, "nil:")) {
+						continue
+					}
+					other = fmt.Sprintf("`%s` (%s)", lf.v.String(), c.P.Pos(lf.v.Pos()))
+				}
+			}
+			key := "validator-guard field=" + k
+			if other != "" {
+				c.Fail(rule, key, desc, c.P.InstrPos(in)+": "+k+" is set only if "+other+"; e.g. an entry whose only validator is a weak ETag (W/\"...\") is revalidated with an unconditional GET")
+			} else {
+				c.Pass(rule, key, desc, c.P.InstrPos(in))
+			}
+		})
+	}
+	if n == 0 {
+		c.Undecided(rule, "validator-guard", desc, "no Set of If-None-Match / If-Modified-Since in "+c.P.ShortName(fn))
+	}
 }
